@@ -10,7 +10,7 @@ DIRECTIVES = ['ResetallCompilerDirective', 'TimescaleCompilerDirective', 'Defaul
 for d in DIRECTIVES:
     # kept directive: copy the whole directive, then suppress its trailing white space
     out.append("""
-fn arm_enter_%(d)s<'a, N, T: AsRef<Path>>(x: &'a N, s: &str, path: T, ret: &mut PreprocessedText, skip_whitespace: bool) -> (r: bool)
+fn arm_enter_%(d)s<'a, N, T: AsRef<Path>, U: AsRef<Path>>(x: &'a N, $STATE, ret: &mut PreprocessedText, skip_whitespace: bool) -> (r: bool)
     where &'a N: VTryInto<Locate>
     requires old(ret).wf(), node_ok(x, s),
     ensures copied(old(ret), final(ret), s, path.as_ref_spec().id(), x.fold().unwrap()),     //: C03.site.%(d)s-records-the-range-it-copies C03,C06
@@ -31,4 +31,7 @@ fn arm_leave_%(d)s(skip_whitespace: bool) -> (r: bool)
 }""" % dict(d=d, F=F))
 head = open(os.path.join(D, 'arms_head.vx')).read()
 tail = open(os.path.join(D, 'arms_tail.vx')).read()
-open(os.path.join(D, '..', 'units', 'arms.vx'), 'w').write(head + '\n'.join(out) + '\n' + tail)
+# $STATE: the parameters of preprocess_str, available to every lifted arm
+STATE = "s: &str, path: T, pre_defines: &Defines, include_paths: &[U], ignore_include: bool, strip_comments: bool, resolve_depth: usize, include_depth: usize"
+text = (head + '\n'.join(out) + '\n' + tail).replace('$STATE', STATE)
+open(os.path.join(D, '..', 'units', 'arms.vx'), 'w').write(text)
